@@ -43,29 +43,32 @@ open ModVerif.Drv.LexOps.M (kindCode)
 
 /-! ### the representation relation -/
 
-/-- generated state `gi` represents model state `mi`, the pending token having Go kind `k` -/
-structure RepK (k : Int) (gi : Generated.Lex.input) (mi : Input) : Prop where
+/-- generated state `gi` represents model state `mi`; the pending token has Go kind `k` and `in.tokenStart` is `ts` -/
+structure RepK (k : Int) (ts : Bytes) (gi : Generated.Lex.input) (mi : Input) : Prop where
   remaining : gi.remaining = mi.remaining
   complete : gi.complete = mi.consumedRev.reverse ++ mi.remaining
   byte : mi.pos.byte = mi.consumedRev.length
   pos : gi.pos = embPos mi.pos
-  tokenStart : gi.tokenStart = mi.tokRev.reverse ++ mi.remaining
+  tokenStart : gi.tokenStart = ts
   tokKind : gi.token.kind = k
   tokPos : gi.token.pos = embPos mi.token.pos
   tokEnd : gi.token.endPos = embPos mi.token.endPos
   tokText : gi.token.text = mi.token.text
   comments : gi.comments = mi.commentsRev.reverse.map embComment
 
-/-- the representation relation: as `RepK`, the pending token's kind being the code of the model's token kind -/
-def Rep (gi : Generated.Lex.input) (mi : Input) : Prop := RepK (kindCode mi.token.kind) gi mi
+/-- the representation relation: `RepK` with the token kind being the code of the model's token kind and `tokenStart`
+    being the bytes of the pending token followed by the remaining input -/
+def Rep (gi : Generated.Lex.input) (mi : Input) : Prop :=
+  RepK (kindCode mi.token.kind) (mi.tokRev.reverse ++ mi.remaining) gi mi
 
-/-- `RepK` is functional from the model side: `gi` is the embedding `embK k mi` (Proofs/TieFnLexA.lean), and the model
-    state satisfies `pos.byte = len(consumed)` -/
-theorem repK_iff {k : Int} {gi : Generated.Lex.input} {mi : Input} : RepK k gi mi ↔ gi = embK k mi ∧ WF mi := by
+/-- `RepK` is functional from the model side: `gi` is the embedding `embKT k ts mi` (Proofs/TieFnLexA.lean), and the
+    model state satisfies `pos.byte = len(consumed)` -/
+theorem repK_iff {k : Int} {ts : Bytes} {gi : Generated.Lex.input} {mi : Input} :
+    RepK k ts gi mi ↔ gi = embKT k ts mi ∧ WF mi := by
   constructor
   · intro h
     refine ⟨?_, h.byte⟩
-    obtain ⟨c, r, ts, ⟨tk, tp, te, tt⟩, p, cs⟩ := gi
+    obtain ⟨c, r, ts', ⟨tk, tp, te, tt⟩, p, cs⟩ := gi
     have h1 := h.remaining; have h2 := h.complete; have h3 := h.pos; have h4 := h.tokenStart; have h5 := h.tokKind
     have h6 := h.tokPos; have h7 := h.tokEnd; have h8 := h.tokText; have h9 := h.comments
     simp only at h1 h2 h3 h4 h5 h6 h7 h8 h9
@@ -81,8 +84,8 @@ theorem rep_iff {gi : Generated.Lex.input} {mi : Input} : Rep gi mi ↔ gi = emb
 def gNewInput (data : Bytes) : Generated.Lex.input :=
   { (default : Generated.Lex.input) with complete := data, remaining := data, pos := { Line := 1, LineRune := 1, Byte := 0 } }
 
-/-- the initial states are related (the Go token kind is 0) -/
-theorem newInput_rep (data : Bytes) : RepK 0 (gNewInput data) (newInput data) :=
+/-- the initial states are related (the Go token kind is 0 and `tokenStart` is nil) -/
+theorem newInput_rep (data : Bytes) : RepK 0 [] (gNewInput data) (newInput data) :=
   ⟨rfl, rfl, rfl, rfl, rfl, rfl, rfl, rfl, rfl, rfl⟩
 
 /-! ### isIdent, tokenKind.isComment, tokenKind.isEOL -/
@@ -111,23 +114,23 @@ example : Generated.Lex.tokenKind_isEOL (-3) = false ∧ TokKind.ident.isEOL = f
 
 /-! ### eof, peekRune, peekPrefix, peek -/
 
-theorem input_eof_tie {k : Int} {gi : Generated.Lex.input} {mi : Input} (h : RepK k gi mi) :
+theorem input_eof_tie {k : Int} {ts : Bytes} {gi : Generated.Lex.input} {mi : Input} (h : RepK k ts gi mi) :
     Generated.Lex.input_eof gi = mi.eof := by
   obtain ⟨rfl, _⟩ := repK_iff.1 h
-  exact eof_eq k mi
+  exact eof_eqT k ts mi
 
 /-- peekRune: 0 at EOF, else the first rune (U+FFFD for an ill-formed sequence) -/
-theorem input_peekRune_tie {k : Int} {gi : Generated.Lex.input} {mi : Input} (h : RepK k gi mi) :
+theorem input_peekRune_tie {k : Int} {ts : Bytes} {gi : Generated.Lex.input} {mi : Input} (h : RepK k ts gi mi) :
     Generated.Lex.input_peekRune gi = (mi.peekRune : Int) := by
   obtain ⟨rfl, _⟩ := repK_iff.1 h
-  exact peekRune_eq k mi
+  exact peekRune_eqT k ts mi
 
 /-- peekPrefix: the byte loop `for i := 0; i < len(prefix); i++ { if i >= len(in.remaining) || … }` is `isPrefixOfB` -/
-theorem input_peekPrefix_tie {k : Int} {gi : Generated.Lex.input} {mi : Input} (h : RepK k gi mi) (p : Bytes) (fuel : Nat)
-    (hf : p.length + 1 ≤ fuel) :
+theorem input_peekPrefix_tie {k : Int} {ts : Bytes} {gi : Generated.Lex.input} {mi : Input} (h : RepK k ts gi mi)
+    (p : Bytes) (fuel : Nat) (hf : p.length + 1 ≤ fuel) :
     Generated.Lex.input_peekPrefix fuel gi p = .ok (mi.peekPrefix p) := by
   obtain ⟨rfl, _⟩ := repK_iff.1 h
-  exact peekPrefix_eq k mi p fuel hf
+  exact peekPrefix_eqT k ts mi p fuel hf
 
 theorem input_peek_tie {gi : Generated.Lex.input} {mi : Input} (h : Rep gi mi) :
     Generated.Lex.input_peek gi = kindCode mi.peek := by
@@ -151,20 +154,21 @@ example : Generated.Lex.input_peekPrefix 2 (gNewInput [47, 47, 97]) [47, 47] = .
 
 /-- readRune: one rune consumed (width 1 and U+FFFD for an ill-formed sequence), line / rune-in-line / byte advanced;
     at EOF `in.Error("internal lexer error: readRune at EOF")` -/
-theorem input_readRune_tie {k : Int} {gi : Generated.Lex.input} {mi : Input} (h : RepK k gi mi) :
+theorem input_readRune_tie {k : Int} {ts : Bytes} {gi : Generated.Lex.input} {mi : Input} (h : RepK k ts gi mi) :
     match readRune mi with
-    | .ok (r, mi') => ∃ gi', Generated.Lex.input_readRune gi = .ok ((r : Int), gi') ∧ RepK k gi' mi'
+    | .ok (r, mi') => ∃ gi', Generated.Lex.input_readRune gi = .ok ((r : Int), gi') ∧ RepK k ts gi' mi'
     | .error _ => Generated.Lex.input_readRune gi = .error .panic := by
   obtain ⟨rfl, hw⟩ := repK_iff.1 h
   by_cases he : mi.remaining = []
   · obtain ⟨e, hM⟩ := readRune_eof_model mi he
     rw [hM]
-    exact readRune_eof k mi he
-  · obtain ⟨r, mi', hM, hG, hw', _⟩ := readRune_eq k mi he hw
+    exact readRune_eofT k ts mi he
+  · obtain ⟨r, mi', hM, hG, hw', _⟩ := readRune_eqT k ts mi he hw
     rw [hM]
     exact ⟨_, hG, repK_iff.2 ⟨rfl, hw'⟩⟩
 
-/-- readRune keeps `Rep` (the model's readRune does not touch the token) -/
+/-- readRune keeps `Rep` (the model's readRune does not touch the token, and moves the bytes it consumes from
+    `remaining` to `tokRev`) -/
 theorem input_readRune_tie_rep {gi : Generated.Lex.input} {mi : Input} (h : Rep gi mi) :
     match readRune mi with
     | .ok (r, mi') => ∃ gi', Generated.Lex.input_readRune gi = .ok ((r : Int), gi') ∧ Rep gi' mi'
@@ -176,20 +180,19 @@ theorem input_readRune_tie_rep {gi : Generated.Lex.input} {mi : Input} (h : Rep 
     exact readRune_eof _ mi he
   · obtain ⟨r, mi', hM, hG, hw', _, htok, _⟩ := readRune_eq (kindCode mi.token.kind) mi he hw
     rw [hM]
-    refine ⟨_, hG, ?_⟩
-    show RepK (kindCode mi'.token.kind) _ _
-    rw [htok]
-    exact repK_iff.2 ⟨rfl, hw'⟩
+    exact ⟨_, hG, rep_iff.2 ⟨by unfold emb; rw [htok], hw'⟩⟩
 
-theorem input_startToken_tie {k : Int} {gi : Generated.Lex.input} {mi : Input} (h : RepK k gi mi) :
-    RepK k (Generated.Lex.input_startToken gi).2 (startToken mi) := by
+/-- startToken: whatever `tokenStart` was, it now is the remaining input -/
+theorem input_startToken_tie {k : Int} {ts : Bytes} {gi : Generated.Lex.input} {mi : Input} (h : RepK k ts gi mi) :
+    RepK k mi.remaining (Generated.Lex.input_startToken gi).2 (startToken mi) := by
   obtain ⟨rfl, hw⟩ := repK_iff.1 h
-  rw [startToken_eq]
+  rw [startToken_eqT]
   exact repK_iff.2 ⟨rfl, startToken_wf hw⟩
 
 /-- endToken: the token text is `tokenStart[:len(tokenStart)-len(remaining)]`, for comment tokens without one trailing
     CRLF (`strings.HasSuffix(text, "\r\n")`, `text[:len(text)-2]`) or LF (`strings.TrimSuffix`) -/
-theorem input_endToken_tie {k : Int} {gi : Generated.Lex.input} {mi : Input} (h : RepK k gi mi) (kd : TokKind) :
+theorem input_endToken_tie {k : Int} {gi : Generated.Lex.input} {mi : Input}
+    (h : RepK k (mi.tokRev.reverse ++ mi.remaining) gi mi) (kd : TokKind) :
     ∃ gi', Generated.Lex.input_endToken gi (kindCode kd) = .ok ((), gi') ∧ Rep gi' (endToken kd mi) := by
   obtain ⟨rfl, hw⟩ := repK_iff.1 h
   exact ⟨_, endToken_eq k kd mi, rep_iff.2 ⟨rfl, endToken_wf kd hw⟩⟩
@@ -208,14 +211,14 @@ example : Generated.Lex.input_readRune (gNewInput []) = .error .panic ∧ (readR
     `bytes.TrimSpace(in.complete[bytes.LastIndex(in.complete[:in.pos.Byte], "\n")+1 : in.pos.Byte])` is non-empty, an
     `_EOLCOMMENT` token that is also appended to `in.comments`; `/*` is an error; then EOF, punctuation, quoted string
     (`"` with backslash escapes, backquote without), or identifier (stopping at `//`, `/*` an error).  From ANY token kind
-    `k` (in particular the zero token of `newInput`) to `Rep`. -/
-theorem input_readToken_tie {k : Int} {gi : Generated.Lex.input} {mi : Input} (h : RepK k gi mi) (fuel : Nat)
-    (hf : mi.remaining.length + 4 ≤ fuel) :
+    `k` and any `tokenStart` (in particular the zero token and nil `tokenStart` of `newInput`) to `Rep`. -/
+theorem input_readToken_tie {k : Int} {ts : Bytes} {gi : Generated.Lex.input} {mi : Input} (h : RepK k ts gi mi)
+    (fuel : Nat) (hf : mi.remaining.length + 4 ≤ fuel) :
     match readToken mi with
     | .ok mi' => ∃ gi', Generated.Lex.input_readToken isPrintI isSpaceI fuel gi = .ok ((), gi') ∧ Rep gi' mi'
     | .error _ => Generated.Lex.input_readToken isPrintI isSpaceI fuel gi = .error .panic := by
   obtain ⟨rfl, hw⟩ := repK_iff.1 h
-  obtain ⟨hG, hP⟩ := readToken_eq k mi hw fuel hf
+  obtain ⟨hG, hP⟩ := readToken_eq k ts mi hw fuel hf
   rw [hG]
   cases hr : readToken mi with
   | error e => rfl
@@ -258,11 +261,12 @@ theorem lexAll_tie {gi : Generated.Lex.input} {mi : Input} (h : Rep gi mi) (fuel
 theorem lexFile_tie (data : Bytes) (fuel : Nat) (hf : data.length + 4 ≤ fuel) (n : Nat) :
     (match Generated.Lex.input_readToken isPrintI isSpaceI fuel (gNewInput data) with
       | .error _ => none
-      | .ok (_, gi) => (Drv.LexOps.G.lexAll fuel n gi []).map (fun p => (p.1, p.2.comments))) =
+      | .ok (_, gi) => (Drv.LexOps.G.lexAll fuel n gi []).map
+          (fun (p : List Generated.Lex.token × Generated.Lex.input) => (p.1, p.2.comments))) =
     (match readToken (newInput data) with
       | .error _ => none
       | .ok mi => (Drv.LexOps.M.lexAll n mi []).map
-          (fun p => (p.1.map embTok, p.2.commentsRev.reverse.map embComment))) := by
+          (fun (p : List Token × Input) => (p.1.map embTok, p.2.commentsRev.reverse.map embComment))) := by
   have h0 := input_readToken_tie (newInput_rep data) fuel hf
   cases hr : readToken (newInput data) with
   | error e => rw [hr] at h0; rw [h0]
@@ -283,6 +287,42 @@ theorem lexFile_tie (data : Bytes) (fuel : Nat) (hf : data.length + 4 ≤ fuel) 
       obtain ⟨gi', hG', _, hc⟩ := h1
       simp only [List.map_nil] at hG'
       simp only [hG', hl, Option.map_some, hc]
+
+/-- The op of the correspondence run: on every input the regenerated lexer prints exactly what the hand model prints
+    (`gmodfile.lex` = `modfile.lex` of Drv/LexOps.lean: all tokens with kind, start and end position and text, then the
+    recorded end-of-line comments, or `err`).  The check compares both with the real implementation on sampled inputs;
+    this is their agreement with each other on ALL inputs. -/
+theorem run_tie (data : Bytes) : Drv.LexOps.G.run data = Drv.LexOps.M.run data := by
+  unfold Drv.LexOps.G.run Drv.LexOps.M.run
+  have h0 := input_readToken_tie (newInput_rep data) (data.length + 8) (by show data.length + 4 ≤ _; omega)
+  unfold gNewInput at h0
+  simp only []
+  cases hr : readToken (newInput data) with
+  | error e => rw [hr] at h0; simp only [h0]
+  | ok mi =>
+    rw [hr] at h0
+    obtain ⟨gi, hG, hrep⟩ := h0
+    simp only [hG]
+    have hle : mi.remaining.length ≤ data.length := by
+      rcases Proofs.ModfileLex.readToken_spec (newInput data) with ⟨i', h1, h2, _⟩ | ⟨e, h1, _⟩
+      · rw [hr] at h1; cases h1; exact h2
+      · rw [hr] at h1; cases h1
+    have h1 := lexAll_tie hrep (data.length + 8) (by omega) (data.length + 2) []
+    cases hl : Drv.LexOps.M.lexAll (data.length + 2) mi [] with
+    | none => rw [hl] at h1; simp only [List.map_nil] at h1; simp only [h1]
+    | some p =>
+      obtain ⟨ts, mi'⟩ := p
+      rw [hl] at h1
+      obtain ⟨gi', hG', _, hc⟩ := h1
+      simp only [List.map_nil] at hG'
+      simp only [hG', hc, map_showTok_emb, map_showComment_emb, List.isEmpty_map]
+
+-- `a //x\n`: an identifier, an end-of-line comment (also recorded in `comments`), EOF
+example : Drv.LexOps.G.run [97, 32, 47, 47, 120, 10] =
+      "-3@0:1:1-1:1:2=61,-2@2:1:3-6:2:1=2f2f78,-1@6:2:1-6:2:1=- comments=2:1:3=2f2f78:true" ∧
+    Drv.LexOps.M.run [97, 32, 47, 47, 120, 10] =
+      "-3@0:1:1-1:1:2=61,-2@2:1:3-6:2:1=2f2f78,-1@6:2:1-6:2:1=- comments=2:1:3=2f2f78:true" := by decide +kernel
+example : Drv.LexOps.G.run [97, 47, 42] = "err" ∧ Drv.LexOps.M.run [97, 47, 42] = "err" := by decide +kernel
 
 -- `a ( // c\n"s"` + a block comment error + an unterminated string: tokens and comments of both sides
 example : (match Generated.Lex.input_readToken isPrintI isSpaceI 20 (gNewInput [97, 32, 40, 32, 47, 47, 32, 99, 10, 34, 115, 34]) with
